@@ -42,6 +42,11 @@ add("C21", "E1-scheduler", "exploration",
     "Bound: 7 cyclic/acyclic model shapes, <=4 tuples, chunk/buffer/procs in {1,2}; preemption bound 0 is the target in quick (time-capped per scenario: evidence says which bounds completed; exhaustive:false when a required bound was cut). Trusted: vrt scheduler models, vgen rewrite, uninstrumented memory store/typesystem/otel never block across a scheduling point.",
     "stateless model checking of the implementation: controlled cooperative scheduler, DFS over schedules with preemption bounding and trace-key pruning")
 
+add("C02", "E2-worlds", "exploration",
+    "For every world and request the real resolver chain runs under a scripted planner with EVERY assignment of an offered strategy to every consulted plan key (closure over keys that appear only under some assignment), crossed with three tuning corners and repeated; ListObjects runs through five engine/tuning configurations; all outcomes of one request must coincide and equal the reference. Strategy choice is thereby enumerated instead of sampled.",
+    "Bound: model family representatives (every 12th r0-signature class in quick, all in thorough), <=2 tuples, C01 universe; tuning corners {default, breadth 1 + reads 1, breadth 2 + dispatch throttling threshold 1}. Whole-engine runs use one Go-scheduler interleaving each (5/5 rule for the concurrency clause); interleavings are enumerated only in the E1 harnesses. Trusted: reference semantics, scripted planner.Manager (h/checks/planner.go).",
+    "bounded exhaustive enumeration of inputs x environment answers (planner strategy assignments) on the implementation against a reference model")
+
 NOT_BUILT ="check not built yet in this session; see DESIGN.md §5 for the planned decision procedure"
 NA = {}
 
